@@ -20,9 +20,47 @@ def encoders():
     return [("c12_composite", hist.COMPOSITE_HEADER, "check_ccase", "ccase", lambda tr, n: hist.encode_ccase(tr, n))]
 
 
+WATER = "config_files/2018_JCP_149_064113/water/single_molecule.ini"
+DIPOLE_MOTION = "config_files/2018_JCP_149_064113/dipoles/dipole_motion.ini"
+
+
+def water_switch_overrides():
+    """single water molecule with molecule/atom mode switching added (three point masses per composite object;
+    no shipped configuration combines the switcher with more than two)"""
+    return {
+        "TagActivator": {"taggers": "harmonic (factor_type_map_in_state_tagger), bending (factor_type_map_in_state_tagger), "
+                                    "sampling (no_in_state_tagger), end_of_chain (active_global_state_in_state_tagger), "
+                                    "end_of_run (no_in_state_tagger), start_of_run (no_in_state_tagger), "
+                                    "leaf_to_root (active_root_unit_in_state_tagger), "
+                                    "root_to_leaf (active_root_unit_in_state_tagger)"},
+        "RootToLeaf": {"create": "harmonic, bending, leaf_to_root, end_of_chain", "trash": "root_to_leaf, end_of_chain",
+                       "activate": "harmonic, bending, leaf_to_root", "deactivate": "root_to_leaf",
+                       "event_handler": "root_to_leaf_mode (root_leaf_unit_active_switcher)"},
+        "RootToLeafMode": {"chain_length": "0.7", "aim_mode": "leaf_unit_active"},
+        "LeafToRoot": {"trash": "harmonic, bending, leaf_to_root, end_of_chain", "create": "root_to_leaf, end_of_chain",
+                       "activate": "root_to_leaf", "deactivate": "harmonic, bending, leaf_to_root",
+                       "event_handler": "leaf_to_root_mode (root_leaf_unit_active_switcher)"},
+        "LeafToRootMode": {"chain_length": "0.69", "aim_mode": "root_unit_active"},
+        "StartOfRun": {"create": "harmonic, bending, sampling, end_of_chain, end_of_run, leaf_to_root",
+                       "activate": "harmonic, bending, sampling, leaf_to_root, end_of_run, end_of_chain",
+                       "deactivate": "root_to_leaf"},
+        "EndOfRun": {"trash": "end_of_chain, harmonic, bending, end_of_run, leaf_to_root, root_to_leaf"},
+        "SingleIndependentActivePeriodicDirectionEndOfChainEventHandler": {"chain_time": "0.5"},
+    }
+
+
 def jobs(ctx):
     cfgs = [c for c in hist.shipped_configs(ctx) if "/dipoles/" in c or "/water/" in c or "hard_disk" in c]
-    return [(c, {}) for c in cfgs] + hist.variations(ctx, cfgs, ctx.n(8, 80))
+    return [(c, {}) for c in cfgs] + [(WATER, water_switch_overrides())] + hist.crowded_jobs(cfgs) \
+        + hist.variations(ctx, cfgs, ctx.n(8, 80))
+
+
+def creator_batches(ctx):
+    """many randomly generated initial molecules (no event is run: max_legs = 0): dipoles and water molecules that
+    straddle the periodic boundary are rare (1-2 %)"""
+    n = ctx.n(300, 2000)
+    return [([(DIPOLE_MOTION, {"RandomInputHandler": {"number_of_root_nodes": n}}),
+              (WATER, {"RandomInputHandler": {"number_of_root_nodes": n}})], 0, (ctx.seed, ctx.seed + 1))]
 
 
 def run(ctx, replay_jobs=None):
@@ -31,8 +69,11 @@ def run(ctx, replay_jobs=None):
         ctx, "C12", ("C12",), encoders(), TRUSTED, ASSUME,
         "Props/C12.v re-checked; traced runs of all composite-object configurations replayed in Coq (check_ccase: "
         "root velocity == weighted sum, absent iff no point mass moves; root advanced to the event time == weighted "
-        "barycentre of nearest images; initial random molecules); oracle: the same conditions with exact rationals",
-        jobs=None if replay_jobs else jobs(ctx), replay_jobs=replay_jobs, prebuilt=True)
+        "barycentre of nearest images; initial random molecules, incl. batches of several hundred generated dipoles and "
+        "water molecules; a water molecule with molecule/atom mode switching); oracle: the same conditions with exact "
+        "rationals",
+        jobs=None if replay_jobs else jobs(ctx), replay_jobs=replay_jobs, prebuilt=True,
+        extra_batches=() if replay_jobs else creator_batches(ctx))
 
 
 def replay(ctx, path):
